@@ -482,11 +482,14 @@ def run(ck):
         from sa.minieval import MiniEval
         badc = []
         ncase = 0
-        for exp_, ts_, now_ in [(e_, t_, n_) for e_ in (None, -5, 0, 0.0, 5) for t_ in (None, 100)
-                                for n_ in (90, 104, 105, 106, 200)]:
+        for exp_, ts_, now_, init_ in [(e_, t_, n_, i_) for e_ in (None, -5, 0, 0.0, 5) for t_ in (None, 100)
+                                       for n_ in (90, 104, 105, 106, 200) for i_ in (False, True)]:
                 if True:
                     calls = []
-                    env = {'self.expiration': exp_, 'self.circuit.persistent_ts': ts_, 'time.time()': now_,
+                    # the saved state is the first and unconditional source: a block that already has an
+                    # output (a main task delivered a value before the first pass) is restored all the same
+                    env = {'self.is_initialized': lambda init_=init_: init_, 'self.initialized': init_,
+                           'self.expiration': exp_, 'self.circuit.persistent_ts': ts_, 'time.time()': now_,
                            'self.circuit.persistent_dict[self.key]': 'STATE',
                            'self.circuit.persistent_dict': 'STORAGE',
                            'self._restore_state': lambda st_, calls=calls: calls.append(st_)}
@@ -495,7 +498,8 @@ def run(ck):
                     ck.abstract_cases += 1
                     want = exp_ is None or (exp_ > 0 and (ts_ is None or not ts_ + exp_ < now_))
                     if out[0] != 'return' or (calls == ['STATE']) != want or len(calls) > 1:
-                        badc.append(f"expiration={exp_!r}, stop time={ts_!r}, now={now_}: "
+                        badc.append(f"expiration={exp_!r}, stop time={ts_!r}, now={now_}, block "
+                                    f"{'already' if init_ else 'not yet'} initialised: "
                                     f"{'restored' if calls else 'not restored'} ({out[0]}), must be "
                                     f"{'restored' if want else 'discarded'}")
         ck.ob(R7, f"{ifp.fid} :: expiry decision", not badc,
